@@ -451,3 +451,37 @@ for _p in REVIEWED:
     if 'claim_draft' in PROPS.get(_p, {}):
         PROPS[_p]['claim'] = PROPS[_p]['claim_draft']
         PROPS[_p]['registered'] = True
+
+# ---------------------------------------------------------------------------------------------------------------
+# Boundary scenarios added after the first seeded-change sweep (three changes were missed by the quick tier):
+#  * profile `prune` (104 candidates): six candidates of exactly equal total stake straddle rank 100 of the pruning order and six more
+#    the validator cut (harness/world_ties.go); inside every period newcomers declare with stakes far above / a few pip above /
+#    equal to / a few pip below the total at rank 100, delegations lift candidates over the boundary and unbonds sink others
+#    (harness/txgen_extra.go rankDance); the driver's S end monitor pruneMonitor (MinterModel/ValidMonitor.lean) judges who was
+#    removed by the totals of THIS recalculation (VIOL C17 removed-candidate-outranks-survivor / pruned-set-differs / ...).
+#  * profile `restarting`: mixed traffic plus ticker hand-overs followed by actions of the new and of the former owner, on a disk node
+#    that is stopped and reopened after about a quarter of the commits, WITH the driver attached: every key that differs between the
+#    stopped and the restarted process (export and in-memory view) is VIOL C09 restart-changed-state, for authorization data also
+#    VIOL C05 authorization-data-changed-by-restart, for coin registry fields VIOL C22 coin-registry-changed-by-restart; an accepted
+#    recreate / owner change / mint signed by somebody who is not the owner according to the accepted transactions so far is
+#    VIOL C05 / C22 owner-gated-tx-accepted-from-non-owner (MinterModel/RestartMonitor.lean).
+PROPS['C08']['theorems'] += ['Minter.C08_prune_rank_perm_invariant', 'Minter.C08_pruned_tail_perm_invariant', 'Minter.C08_stake_only_order_depends_on_iteration']
+PROPS['C08']['modes'] += [{'mode': 'determinism', 'args': ['-profile', 'prune', '-seed', '{seed}', '-n', '2', '-tier', '{tier}', '-keep', '{keep}']}]
+PROPS['C08']['claim'] += (" Added: the pruning order (stake desc, id ASC - getOrderedCandidatesLessID) and the removed tail behind rank 100 are invariant under the iteration order for any stakes,"
+                          " equal ones included (C08_prune_rank_perm_invariant, C08_pruned_tail_perm_invariant), and the id tie-break is necessary: a stable sort by stake alone returns different"
+                          " orders for two iteration orders of two equal-stake candidates (C08_stake_only_order_depends_on_iteration). The three-process run is repeated on profile prune:"
+                          " 104 candidates with groups of exactly equal total stake across rank 100 and across the validator cut, so that the tie-breaks decide who is removed and who validates.")
+for _p in ('C17', 'C19'):
+    PROPS[_p]['campaigns'] = PROPS[_p]['campaigns'] + [camp('prune', 4, 24)]
+PROPS['C17']['claim'] += (" Added: campaign prune (104 candidates, the rank-100 boundary moving inside every period) with the S end monitor pruneMonitor: nobody removed outranks - by the totals of this"
+                          " recalculation, (stake desc, id asc) - a candidate that stays, the removed set equals prunedCandidates of the recalculated totals whenever those are exact (base-coin stakes),"
+                          " nobody is removed while there is room and no non-validator stays beyond rank 100 (VIOL C17 removed-candidate-outranks-survivor / pruned-set-differs /"
+                          " candidate-removed-within-limit / candidate-beyond-limit-not-removed).")
+for _p in ('C05', 'C22', 'C09'):
+    PROPS[_p]['campaigns'] = PROPS[_p]['campaigns'] + [camp('restarting', 6, 40)]
+_RESTARTING = (" Added: campaign restarting (disk node stopped and reopened after about a quarter of the commits, driver attached, ticker hand-overs followed by actions of the new and the former owner):"
+               " what the stopped process held - export and in-memory view - must equal what the restarted one holds (VIOL C09 restart-changed-state; authorization data: VIOL C05"
+               " authorization-data-changed-by-restart; coin registry fields: VIOL C22 coin-registry-changed-by-restart), and every accepted recreate / owner change / mint must be signed by the owner"
+               " that follows from the accepted transactions so far (VIOL C05 / C22 owner-gated-tx-accepted-from-non-owner).")
+for _p in ('C05', 'C22', 'C09'):
+    PROPS[_p]['claim'] += _RESTARTING
